@@ -111,10 +111,15 @@ def validity_group_case(seed, shard, i, make_case):
         prog, rws, _ = make_case(seed, f"g{shard}", i * 10 + j)
         if rows is None:
             rows = rws
-        members.append(lang.tolist(prog))
+        prog = lang.tolist(prog)
+        if r.random() < 0.12:
+            prog["comment"] = "run-mode: no-run "  # a member that is switched off is still a valid member
+        members.append(prog)
     pol = r.choice([["collect", "print"], ["collect", "fail"], ["collect", "stop"], ["collect", "stop", "fail"], ["fail", "print"], ["stop", "print"], ["collect", "stop", "fail", "print"]])
     method = METHODS[i % len(METHODS)]
-    if not any(len(x) for x in rows):
+    if r.random() < 0.04:
+        rows = []  # an empty data file: nothing can fail it
+    elif not any(len(x) for x in rows):
         rows = rows + [["r9", "F", "n", "5"]]
     return {"group": members, "rows": rows, "policy": pol, "method": method}
 
